@@ -9,7 +9,9 @@ exit kind per path, decisions and read-only calls left out (sibling cross-check)
 message is handed to a subscriber only under the normal form of the prefix test: len(sub) <= len(first frame)
 and sub == first[0..len(sub)] (or first.starts_with(sub)); (R11.4) at most one try_send per subscriber per
 publish (the scan of that subscriber's list ends at the first match); (R11.5) XPUB recv gives a clone of every
-message to the handler and returns the original; PUB feeds its handler from one spawned reader per peer.
+message to the handler and returns the original; PUB feeds its handler from one spawned reader per peer; (R11.6)
+subscriptions are per connection: registering a (re)connecting peer replaces whatever entry its identity had (C04 R04.4
+re-evaluated for the PUB and XPUB backends) and the new entry starts with an empty subscription list.
 Does NOT decide multiset semantics over arbitrary histories."""
 import re
 from ..sym import show, walk_expr
@@ -27,6 +29,7 @@ RULES = {
     "R11.3": "delivery only under len(sub) <= len(first) && sub == first[..len(sub)] (or starts_with)",
     "R11.4": "at most one try_send per subscriber per publish",
     "R11.5": "XPUB recv: handler gets a clone, caller the original; PUB: one spawned reader per peer feeding the handler",
+    "R11.6": "subscriptions are per connection: registration replaces an existing entry (C04 R04.4) and starts with an empty list",
 }
 
 LIST_MUT = {"push", "remove", "retain", "clear", "drain", "truncate", "dedup", "pop", "swap_remove", "insert", "extend", "append", "resize", "retain_mut", "dedup_by", "dedup_by_key", "split_off"}
@@ -278,6 +281,41 @@ def run(ctx, f, rep):
         check_send(f, rep, pub, "PUB send")
         check_send(f, rep, xpub, "XPUB send")
         check_siblings(f, rep, pub, xpub, "publish-loops", max_visits=1, cut_at_yield=True)
+    # R11.6 subscriptions are per *connection*: a (re)connecting peer replaces whatever entry its identity had (C04 R04.4,
+    # re-evaluated for the two publisher backends) and starts with an empty subscription list
+    from . import c04
+    from ..report import Report
+    sub = Report("C11", rep.config)
+    c04.check_registration(f, sub)
+    n6 = 0
+    for o in sub.obls:
+        if "PubSocketBackend" in o.key and o.rule == "R04.4":
+            n6 += 1
+            (rep.ok if o.ok else rep.bad)("R11.6", o.key.replace("R04.4", "R11.6", 1), o.what, o.loc, o.detail)
+    rep.floor("R11.6", "registration obligations of the PUB and XPUB backends", n6, 4)
+    for ty, outer in sorted(trait_impls(f, "MultiPeerBackend", "peer_connected").items()):
+        if "PubSocketBackend" not in ty:
+            continue
+        co = coroutine_of(f, outer)
+        fresh = 0
+        for p in pathq.paths(f, co):
+            if p.end != "return":
+                continue
+            for i, e in pathq.calls(p, "upsert_async", "upsert_sync", "insert_async", "insert_sync", "insert_entry"):
+                if "scc::" not in e.name:
+                    continue
+                val = next((a for a in e.args[1:] if a[0] == "agg" and a[1] == "adt" and a[2] in f.adts), None)
+                if val is None:
+                    continue
+                flds = f.adts[val[2]]["variants"][0]["fields"]
+                idx = next((k for k, fl in enumerate(flds) if "Vec<std::vec::Vec<u8>>" in fl["ty"]), None)
+                if idx is None or idx >= len(val[4]):
+                    continue
+                fresh += 1
+                v = val[4][idx]
+                empty = v[0] in ("call", "pure") and (short(v[1]) in ("new", "default") and not v[2]) and "Vec" in v[1]
+                rep.check(empty, "R11.6", "R11.6|%s|fresh-entry-has-no-subscriptions" % ty, "%s: a newly registered subscriber starts with an empty subscription list (%s)" % (ty, show(v)[:50]), co.loc(e.bb))
+        rep.floor("R11.6", "%s: registrations with a subscriber record" % ty, fresh, 1)
     # R11.5 (the subscription handlers are the functions found by signature above, whatever they are called)
     hpaths = {b.path for b in hs}
     co = socket_coroutine(f, "SocketRecv", "recv", "XPubSocket")
